@@ -64,8 +64,34 @@ def P_reindex(ctx, lib):
         b = lib.one("parser::AdfParser::regenerate_indizes")
         roles, d = flow.closure_roles(b)
         fe = [r for r in roles.values() if r.adaptor == "for_each"]
-        ok = len(fe) == 1 and match(fe[0].receiver, C("enumerate", C("iter", C("expect", C("read", F(P(1), "namelist")), ANY)))) is not None
-        ctx.ob(rule, "regenerate.iterates-namelist", ok, where=b.where(), expected="self.namelist.read().iter().enumerate().for_each(..)", found=[flow.show(r.receiver)[:120] for r in roles.values()])
+        if not fe:
+            # `for (i, elem) in namelist.read().iter().enumerate() { dict.insert(elem.clone(), i) }`: the same step written as a loop
+            calls, dd = flow.all_call_exprs(b)
+            ins = [e for bb, t, ci, e in calls if e[0] == "call" and flow.last(e[2]) == "insert" and "HashMap" in e[1]]
+            okl = False
+            why = [flow.show(e)[:200] for e in ins]
+            if len(ins) == 1:
+                tgt, k, v = ins[0][3][0], ins[0][3][1], ins[0][3][2]
+                items = flow.find(k, lambda n_: n_[0] == "call" and flow.last(n_[2]) == "next")
+                src_ok = bool(flow.find(k, lambda n_: n_[0] == "call" and flow.last(n_[2]) == "enumerate")) and bool(flow.find(k, lambda n_: n_[0] == "field" and n_[2] == "namelist"))
+                # key = clone of item.1, value = item.0 of the same enumerate item
+                def comp(x):
+                    y = x
+                    while y[0] == "call" and flow.last(y[2]) in ("clone", "to_string", "to_owned", "into") and y[3]:
+                        y = y[3][0]
+                    while y[0] in ("deref", "ref", "copy", "move") and len(y) > 1 and isinstance(y[1], tuple):
+                        y = y[1]
+                    return y
+                kk, vv = comp(k), comp(v)
+                okl = (kk[0] == "field" and kk[2] == "1" and vv[0] == "field" and vv[2] == "0" and kk[1] == vv[1] and src_ok
+                       and bool(flow.find(tgt, lambda n_: n_[0] == "field" and n_[2] == "dict")))
+                # the loop must not be left early: its only exit is the exhausted iterator
+                loops = b.natural_loops()
+                okl = okl and len(loops) == 1
+            ctx.ob(rule, "regenerate.iterates-namelist", okl, where=b.where(), expected="for every (i, elem) of namelist.iter().enumerate(): dict.insert(elem.clone(), i)", found=why)
+        else:
+            ok = len(fe) == 1 and match(fe[0].receiver, C("enumerate", C("iter", C("expect", C("read", F(P(1), "namelist")), ANY)))) is not None
+            ctx.ob(rule, "regenerate.iterates-namelist", ok, where=b.where(), expected="self.namelist.read().iter().enumerate().for_each(..)", found=[flow.show(r.receiver)[:120] for r in roles.values()])
         if fe:
             cb = lib.body(fe[0].closure_def)
             eng = ctx.engine([lib])
